@@ -1,7 +1,117 @@
-(* C05 — property theorems (placeholder while the model is being validated). *)
-From Coq Require Import List NArith Bool Arith.
+(* C05 — property theorems.  The lock-free bucket never loses, duplicates or invents a sample.
+
+   Model: MV.C05.Model (one step per shared-memory access of bucket.rs, block size B a parameter,
+   [step B fxa fxc]; the code in /repo is [step 64 true true]).  [reach B fxc ps c]: configuration
+   c is reached from the initial configuration of the thread programs ps (any number of threads,
+   any call lists) by SOME schedule, so every theorem over [reach] holds for every interleaving,
+   at every atomic step.
+
+   FULL STATEMENT NOT PROVED (kept here so that it is not lost; see level_note):
+     C05_conservation_except_late_claim :
+       forall B ps c, 1 <= B -> reach B true ps c -> late (fst c) = false ->
+         NoDup (identities handed to clear_with callbacks in c)  /\
+         Permutation (identities whose push executed its 503 step in c)
+                     (handed to clears in c ++ published in blocks reachable from tail
+                      ++ published in blocks of chains detached by a clearer that has not read them yet)
+     together with the ownership invariant it needs (J4: a detached chain is walked by exactly the
+     clearer whose 541 CAS succeeded; (J3) partition of identities), and
+     C05_snapshot_sees_completed / C05_is_empty_sound (a completed snapshot hands out every
+     identity published before its first step and not detached before it; is_empty = true likewise,
+     for fewer than B threads) and C05_spec_ok_on_model (spec_ok holds on every model run outside
+     the late-claim class).  What IS proved for all schedules is C05_conservation_partial below:
+     the per-block protocol (J2/J5), uniqueness of claims, the chain structure (J1) and that reads
+     hand out written slots only; the sequential refinement C05_sequential_bag is complete.      *)
+From Coq Require Import List NArith Bool Arith Permutation.
 Import ListNotations.
 Require Import MV.Common.Interleave MV.C05.Model MV.C05.Spec MV.C05.Exec.
+Require Import MV.C05.ProofsSeq MV.C05.ProofsInv MV.C05.ProofsCor.
+Local Open Scope nat_scope.
 
-Theorem C05_placeholder : forall n : nat, n = n.
-Proof. reflexivity. Qed.
+(* (1) complete calls, run one after the other by any threads, are exactly the bag operations:
+   push adds its value, data_with shows everything, clear_with takes everything, is_empty iff
+   nothing is in the bag; for every block size B >= 1 *)
+Theorem C05_sequential_bag : forall B calls, 1 <= B ->
+  exists s', seq_exec B init_shared calls s' (fst (bag_run B [] calls)) /\
+             SeqState B s' (snd (bag_run B [] calls)).
+Proof. intros B calls HB. apply (seq_bag B HB calls init_shared []). apply SeqState_init. Qed.
+
+Theorem C05_sequential_call : forall B s cs m k c td rs, 1 <= B -> SeqState B s cs ->
+  exists s', steps B s (enter m k (c :: td) rs) s' (enter m (k + 1)%N td (bag_res c cs :: rs)) /\
+             SeqState B s' (bag_next B (m, k) c cs).
+Proof. intros B s cs m k c td rs HB. apply seq_call. exact HB. Qed.
+
+Theorem C05_bag_push_adds : forall B x cs, Permutation (concat (push_contents B x cs)) (x :: concat cs).
+Proof. exact push_contents_perm. Qed.
+
+Theorem C05_sequential_run_unique : forall B s l s1 l1 s2 l2,
+  steps B s l s1 l1 -> steps B s l s2 l2 -> step B true true s1 l1 = None -> step B true true s2 l2 = None ->
+  s1 = s2 /\ l1 = l2.
+Proof. exact steps_det. Qed.
+
+(* (2)+(3) the protocol and chain invariants hold after every schedule *)
+Theorem C05_conservation_partial : forall B fxc ps sched, 1 <= B ->
+  Inv B (fst (exec (step B true fxc) site (init_config ps) sched)).
+Proof. intros B fxc ps sched HB. apply reachable_Inv. exact HB. Qed.
+
+Theorem C05_invariant_every_step : forall B fxc, 1 <= B -> step_preserves (step B true fxc) (Inv B).
+Proof. intros B fxc HB. apply inv_step. exact HB. Qed.
+
+(* no read-before-written: a published bit implies a written slot *)
+Theorem C05_published_slot_is_written : forall B fxc ps c b i, 1 <= B -> reach B fxc ps c ->
+  b < length (heap (fst c)) -> nth i (bdone (getb (heap (fst c)) b)) false = true ->
+  exists x, nth i (bslot (getb (heap (fst c)) b)) None = Some x.
+Proof. intros B fxc ps c b i HB R. pose proof (reach_Inv B HB fxc ps c R) as HI. eapply published_written; eauto. Qed.
+
+(* claims are unique per (block, index) *)
+Theorem C05_claims_unique : forall B fxc ps c t u l l' b i, 1 <= B -> reach B fxc ps c ->
+  nth_error (snd c) t = Some l -> nth_error (snd c) u = Some l' -> t <> u ->
+  inflight b i l = 1 -> inflight b i l' = 1 -> False.
+Proof. intros B fxc ps c t u l l' b i HB R. pose proof (reach_Inv B HB fxc ps c R) as HI. eapply claims_unique; eauto. Qed.
+
+(* the write index counts the claims: below it a slot is published or has exactly one thread in
+   flight; at or above it the slot is untouched *)
+Theorem C05_write_index_counts_claims : forall B fxc ps c b i, 1 <= B -> reach B fxc ps c ->
+  b < length (heap (fst c)) -> i < B -> claim_ok (heap (fst c)) (snd c) b i.
+Proof. intros B fxc ps c b i HB R. pose proof (reach_Inv B HB fxc ps c R) as (_ & HC & _). apply HC. Qed.
+
+(* the publishing thread finds its own value in its slot *)
+Theorem C05_writer_publishes_own_value : forall B fxc ps c t l x b i, 1 <= B -> reach B fxc ps c ->
+  nth_error (snd c) t = Some l -> pcl l = P4 x b i ->
+  nth i (bslot (getb (heap (fst c)) b)) None = Some x /\ nth i (bdone (getb (heap (fst c)) b)) false = false /\
+  i < bw (getb (heap (fst c)) b) /\ i < B.
+Proof. intros B fxc ps c t l x b i HB R. pose proof (reach_Inv B HB fxc ps c R) as HI. eapply writer_finds_own_value; eauto. Qed.
+
+(* what the read at site 506 hands to the callback are written slots below the published length *)
+Theorem C05_delivery_reads_written_slots : forall B fxc ps c b v, 1 <= B -> reach B fxc ps c ->
+  b < length (heap (fst c)) ->
+  In v (data_of (getb (heap (fst c)) b) (tones (bdone (getb (heap (fst c)) b)))) ->
+  exists j, j < tones (bdone (getb (heap (fst c)) b)) /\ nth j (bslot (getb (heap (fst c)) b)) None = Some v.
+Proof. intros B fxc ps c b v HB R. pose proof (reach_Inv B HB fxc ps c R) as HI. eapply delivery_reads_written_slots; eauto. Qed.
+
+(* the chain from tail is finite, strictly decreasing (acyclic) and every block behind another
+   block is full *)
+Theorem C05_chain_acyclic_nonhead_full : forall B fxc ps c, 1 <= B -> reach B fxc ps c ->
+  exists ids, Chain (heap (fst c)) (tail (fst c)) ids /\
+              (forall b d, In b ids -> bnxt (getb (heap (fst c)) b) = Some d -> B <= bw (getb (heap (fst c)) d)).
+Proof. intros B fxc ps c HB R. pose proof (reach_Inv B HB fxc ps c R) as HI. eapply chain_exists; eauto. Qed.
+
+(* the open finding: inside the class the property fails (witness replayed on the real code:
+   corpus/C05/b-late-claim-lost.json) *)
+Theorem C05_late_claim_refutes : exists c, known_class c = Some 1%N /\ spec_ok c (run_case c) = false.
+Proof. exact late_claim_refutes. Qed.
+
+(* the two repaired defects: the model of the code before each fix violates the property outside
+   the late-claim class, the model of the code after the fix does not (same case) *)
+Theorem C05_handover_refuted_before_fix :
+  late_claim_gen 2 false true handover_case = false /\ spec_gen 2 false true handover_case = false /\
+  spec_gen 2 true true handover_case = true.
+Proof. exact handover_refuted_before_fix. Qed.
+
+Theorem C05_is_empty_refuted_before_fix :
+  late_claim_gen BS true false hidden_case = false /\ spec_gen BS true false hidden_case = false /\
+  spec_gen BS true true hidden_case = true.
+Proof. exact is_empty_refuted_before_fix. Qed.
+
+(* satisfiable on a non-trivial run: hand-over raced by a snapshot, a clear and is_empty *)
+Theorem C05_example_run_ok : known_class example_case = None /\ spec_ok example_case (run_case example_case) = true.
+Proof. exact example_ok. Qed.
